@@ -13,8 +13,9 @@
                 common ancestor).  RevertHead needs the state update and the header of the head
                 block: when the pruner has deleted them the revert FAILS, and the revert loop of
                 sync.revertTask never ends (stuck; see RevertFails)
-     L1 client  L1Announce(n): Blockchain.SetL1Head sends the event on the L1-head feed FIRST and
-                writes the database SECOND (L1Write) — the pruner may act in between
+     L1 client  L1Announce(n): Blockchain.SetL1Head writes the database FIRST and sends the event on
+                the L1-head feed SECOND (step L1Write, historical name) since fix 6cdd267; before it
+                the order was the opposite and the pruner could act on a head not yet durable
      feeds      one-slot, keep-first, lossy (Feed.tla): a send into a full slot is dropped
      pruner     one goroutine: PrunerRecvHead / PrunerRecvL1 take an event out of a slot;
                 PrunerOnNewHead reads the L1 head from the DATABASE, PrunerOnL1Head uses the EVENT's
@@ -74,7 +75,7 @@ VARIABLES
   data,      \* heights whose body rows exist (commitments, state update, transactions, history)
   hdrs,      \* heights whose header exists
   l1,        \* durable L1 head [n, tag]; n = -1: none
-  l1pend,    \* SetL1Head between its feed send and its database write: [n, tag] or NoL1
+  l1pend,    \* SetL1Head between its database write and its feed send: [n, tag] or NoL1
   memFloor,  \* the shared in-memory RetentionFloor
   fetched,   \* sync: block handed to the pipeline (0: none)
   notify,    \* sync: stored block not yet sent on newHeads (0: none)
@@ -152,23 +153,25 @@ SourceReorg(d) ==
                  hslot, lslot, pr, pending, keepMax, pc, vw, nViews, restarts, perr>>
 
 \* ------------------------------------------------------------------ L1 client
-\* Blockchain.SetL1Head: l1HeadFeed.Send(update) ...
+\* Blockchain.SetL1Head since fix 6cdd267: core.WriteL1Head FIRST ...
 L1Announce(n) ==
   /\ nL1 < MaxL1 /\ l1pend = NoL1
   /\ n > fin /\ n < Len(src)
   /\ AssumeSlowL1 => Digested
   /\ l1pend' = [n |-> n, tag |-> src[n + 1]]
-  /\ lslot' = IF lslot = 0 THEN src[n + 1] ELSE lslot
+  /\ l1' = [n |-> n, tag |-> src[n + 1]]
   /\ fin' = n /\ nL1' = nL1 + 1
-  /\ UNCHANGED <<src, blk, nReorgs, local, data, hdrs, l1, memFloor, fetched, notify, stuck,
+  /\ UNCHANGED <<src, blk, nReorgs, local, data, hdrs, lslot, memFloor, fetched, notify, stuck,
                  hslot, pr, pending, keepMax, pc, vw, nViews, restarts, perr>>
 
-\* ... then core.WriteL1Head
+\* ... then l1HeadFeed.Send(update): the pruner can only act on a head that is already durable
+\* (the action keeps its historical name; before 6cdd267 the send came first and this step was the write)
 L1Write ==
   /\ l1pend # NoL1
-  /\ l1' = l1pend /\ l1pend' = NoL1
-  /\ UNCHANGED <<src, blk, nReorgs, fin, nL1, local, data, hdrs, memFloor, fetched, notify, stuck,
-                 hslot, lslot, pr, pending, keepMax, pc, vw, nViews, restarts, perr>>
+  /\ lslot' = IF lslot = 0 THEN l1pend.tag ELSE lslot
+  /\ l1pend' = NoL1
+  /\ UNCHANGED <<src, blk, nReorgs, fin, nL1, local, data, hdrs, l1, memFloor, fetched, notify, stuck,
+                 hslot, pr, pending, keepMax, pc, vw, nViews, restarts, perr>>
 
 \* ------------------------------------------------------------------ sync
 SyncFetch ==
